@@ -65,6 +65,8 @@ def _with_helpers(a, ev):
             ev.globals.setdefault(name, ('<func>', f.node, {}))
     for name, val in module_constants(mod).items():
         ev.globals.setdefault(name, val)
+    # getattr(style, '<slot name>'[, default]) on the checker's stand-in objects (a table of slot names instead of a chain of ifs)
+    ev.calls.setdefault('getattr', lambda o, n, *d: (getattr(o, n, *d) if isinstance(o, Obj) and isinstance(n, str) and not n.startswith('__') else (_ for _ in ()).throw(Unsupported('getattr on ' + type(o).__name__))))
     return ev
 
 
